@@ -5,6 +5,7 @@ go 1.12
 require (
 	github.com/getlantern/bytemap v0.0.0-20210122162547-b07440a617f0
 	github.com/getlantern/goexpr v0.0.0-20211215215226-4cdd4fd2847b
+	github.com/getlantern/golog v0.0.0-20210606115803-bce9f9fe5a5f
 	github.com/getlantern/zenodb v0.0.0
 )
 
